@@ -115,6 +115,10 @@ ClientOp(o) ==
                \* (repaired: before, a remove issued on a secondary was never forwarded)
                /\ req' = IF n # P THEN [req EXCEPT ![<<n, P>>] = Append(@, Msg("replicate-remove", o.k, "", 0, 0))] ELSE req
                /\ UNCHANGED ghost
+          \* `snapshot false <db>': queued for the snapshot timer locally, re-emitted for the replicas
+          [] o.op = "snapshot" ->
+               /\ replq' = Enq(n, Msg("replicate-snapshot", "", "", 0, 0))
+               /\ UNCHANGED <<store, req, ghost>>
           \* reads, subscriptions, database selection: nothing is stored (but a node-local counter) or sent
           [] o.op = "noop" -> UNCHANGED <<store, replq, req, ghost>>
           [] o.op = "increment" ->
@@ -152,6 +156,7 @@ ApplyMsg(y, m) ==   \* returns <<store of y, accepted?>>
   CASE m.kind = "replicate" -> ApplySet(y, m.k, m.v, m.ver)
     [] m.kind = "replicate-remove" -> <<ApplyRemove(y, m.k), TRUE, "ok">>
     [] m.kind = "replicate-increment" -> ApplyInc(y, m.k, m.d)
+    [] m.kind = "replicate-snapshot" -> <<store[y], TRUE, "ok">>
 
 Deliver(x, y) ==
   /\ req[<<x, y>>] # <<>>
